@@ -117,6 +117,20 @@ pub struct TransportHandle {
     periodic_tasks_handle: Arc<RwLock<Option<JoinHandle<()>>>>,
     recv_handles: Arc<RwLock<Vec<JoinHandle<()>>>>,
     listener_handle: Arc<RwLock<Option<JoinHandle<()>>>>,
+    #[cfg(feature = "verif-hooks")]
+    verif: Option<VerifState>,
+}
+
+/// State of the in-memory link seam (see `crate::verif_hooks`).
+#[cfg(feature = "verif-hooks")]
+struct VerifState {
+    link: Arc<dyn crate::verif_hooks::VerifLink>,
+    transport_id: String,
+    listen_addr: SocketAddr,
+    #[allow(clippy::type_complexity)]
+    inject_tx: parking_lot::Mutex<
+        Option<tokio::sync::mpsc::Sender<(ant_quic::nat_traversal_api::PeerId, Vec<u8>)>>,
+    >,
 }
 
 // ============================================================================
@@ -262,6 +276,8 @@ impl TransportHandle {
             periodic_tasks_handle,
             recv_handles: Arc::new(RwLock::new(Vec::new())),
             listener_handle: Arc::new(RwLock::new(None)),
+            #[cfg(feature = "verif-hooks")]
+            verif: None,
         })
     }
 
@@ -318,6 +334,8 @@ impl TransportHandle {
             periodic_tasks_handle: Arc::new(RwLock::new(None)),
             recv_handles: Arc::new(RwLock::new(Vec::new())),
             listener_handle: Arc::new(RwLock::new(None)),
+            #[cfg(feature = "verif-hooks")]
+            verif: None,
         })
     }
 }
@@ -337,6 +355,10 @@ impl TransportHandle {
     /// This is the ID used in `P2PEvent::Message.source`, `connected_peers()`,
     /// and `send_message()`. It differs from `peer_id()` which is the app-level ID.
     pub fn transport_peer_id(&self) -> Option<String> {
+        #[cfg(feature = "verif-hooks")]
+        if let Some(ref v) = self.verif {
+            return Some(v.transport_id.clone());
+        }
         if let Some(ref v4) = self.dual_node.v4 {
             return Some(ant_peer_id_to_string(&v4.our_peer_id()));
         }
@@ -468,6 +490,11 @@ impl TransportHandle {
 
         let normalized_addr = normalize_wildcard_to_loopback(socket_addr);
         let addr_list = vec![normalized_addr];
+
+        #[cfg(feature = "verif-hooks")]
+        if self.verif.is_some() {
+            return self.verif_connect(address, normalized_addr).await;
+        }
 
         let peer_id = match tokio::time::timeout(
             self.connection_timeout,
@@ -618,6 +645,11 @@ impl TransportHandle {
             protocol,
             raw_data_len
         );
+
+        #[cfg(feature = "verif-hooks")]
+        if let Some(ref v) = self.verif {
+            return v.link.send(&v.transport_id, peer_id, message_data).await;
+        }
 
         let send_fut = self
             .dual_node
@@ -885,6 +917,10 @@ impl TransportHandle {
         {
             let mut la = self.listen_addrs.write().await;
             *la = addrs.clone();
+            #[cfg(feature = "verif-hooks")]
+            if let Some(ref v) = self.verif {
+                *la = vec![v.listen_addr];
+            }
         }
 
         let event_tx = self.event_tx.clone();
@@ -935,6 +971,10 @@ impl TransportHandle {
         }
         if let Some(v4) = self.dual_node.v4.as_ref() {
             handles.push(v4.spawn_recv_task(tx.clone(), self.shutdown.clone()));
+        }
+        #[cfg(feature = "verif-hooks")]
+        if let Some(ref v) = self.verif {
+            *v.inject_tx.lock() = Some(tx.clone());
         }
         drop(tx);
 
@@ -1033,6 +1073,10 @@ impl TransportHandle {
         info!("Stopping transport...");
 
         self.shutdown.cancel();
+        #[cfg(feature = "verif-hooks")]
+        if let Some(ref v) = self.verif {
+            v.inject_tx.lock().take();
+        }
         self.dual_node.shutdown_endpoints().await;
 
         // Await recv system tasks
@@ -1445,5 +1489,141 @@ impl TransportHandle {
     /// Insert a peer ID into the active_connections set (test helper)
     pub(crate) async fn inject_active_connection(&self, peer_id: PeerId) {
         self.active_connections.write().await.insert(peer_id);
+    }
+}
+
+// ============================================================================
+// Verification seams (feature `verif-hooks`)
+// ============================================================================
+
+#[cfg(feature = "verif-hooks")]
+impl TransportHandle {
+    /// Build a transport without sockets whose dial/send go through `link`.
+    ///
+    /// Everything above `DualStackNetworkNode` (peer registry, framing, receive
+    /// loop, request/response correlation, events) is the production code.
+    pub fn new_for_verif(
+        peer_id: PeerId,
+        transport_id: [u8; 32],
+        listen_addr: SocketAddr,
+        link: Arc<dyn crate::verif_hooks::VerifLink>,
+        connection_timeout: Duration,
+        event_channel_capacity: usize,
+    ) -> Self {
+        let (event_tx, _) = broadcast::channel(event_channel_capacity);
+        Self {
+            peer_id,
+            dual_node: Arc::new(DualStackNetworkNode { v6: None, v4: None }),
+            peers: Arc::new(RwLock::new(HashMap::new())),
+            active_connections: Arc::new(RwLock::new(HashSet::new())),
+            event_tx,
+            listen_addrs: RwLock::new(Vec::new()),
+            rate_limiter: Arc::new(RateLimiter::new(RateLimitConfig {
+                max_requests: u32::MAX / 4,
+                burst_size: u32::MAX / 4,
+                window: std::time::Duration::from_secs(TEST_RATE_LIMIT_WINDOW_SECS),
+                ..Default::default()
+            })),
+            active_requests: Arc::new(RwLock::new(HashMap::new())),
+            geo_provider: Arc::new(BgpGeoProvider::new()),
+            shutdown: CancellationToken::new(),
+            resource_manager: None,
+            connection_timeout,
+            stale_peer_threshold: Duration::from_secs(TEST_STALE_PEER_THRESHOLD_SECS),
+            connection_monitor_handle: Arc::new(RwLock::new(None)),
+            keepalive_handle: Arc::new(RwLock::new(None)),
+            periodic_tasks_handle: Arc::new(RwLock::new(None)),
+            recv_handles: Arc::new(RwLock::new(Vec::new())),
+            listener_handle: Arc::new(RwLock::new(None)),
+            verif: Some(VerifState {
+                link,
+                transport_id: hex::encode(transport_id),
+                listen_addr,
+                inject_tx: parking_lot::Mutex::new(None),
+            }),
+        }
+    }
+
+    /// Dial through the link, then do the same bookkeeping as `connect_peer`.
+    async fn verif_connect(&self, address: &str, normalized_addr: SocketAddr) -> Result<PeerId> {
+        let Some(ref v) = self.verif else {
+            return Err(P2PError::Network(NetworkError::ProtocolError(
+                "verif link not configured".into(),
+            )));
+        };
+        let peer_id = match tokio::time::timeout(
+            self.connection_timeout,
+            v.link.connect(&v.transport_id, normalized_addr),
+        )
+        .await
+        {
+            Ok(Ok(connected_peer_id)) => {
+                if connected_peer_id == self.peer_id {
+                    return Err(P2PError::Network(NetworkError::InvalidAddress(
+                        format!("Cannot connect to self ({})", address).into(),
+                    )));
+                }
+                connected_peer_id
+            }
+            Ok(Err(e)) => {
+                return Err(P2PError::Transport(
+                    crate::error::TransportError::ConnectionFailed {
+                        addr: normalized_addr,
+                        reason: e.to_string().into(),
+                    },
+                ));
+            }
+            Err(_) => return Err(P2PError::Timeout(self.connection_timeout)),
+        };
+
+        let peer_info = PeerInfo {
+            peer_id: peer_id.clone(),
+            addresses: vec![address.to_string()],
+            connected_at: Instant::now(),
+            last_seen: Instant::now(),
+            status: ConnectionStatus::Connected,
+            protocols: vec!["p2p-foundation/1.0".to_string()],
+            heartbeat_count: 0,
+        };
+        self.peers.write().await.insert(peer_id.clone(), peer_info);
+        self.active_connections
+            .write()
+            .await
+            .insert(peer_id.clone());
+        self.send_event(P2PEvent::PeerConnected(peer_id.clone()));
+        Ok(peer_id)
+    }
+
+    /// What the accept loop does for an inbound connection from `peer_id`.
+    pub async fn verif_accept(&self, peer_id: &str, remote_sock: SocketAddr) {
+        if self.rate_limiter.check_ip(&remote_sock.ip()).is_err() {
+            return;
+        }
+        let peer_id = peer_id.to_string();
+        let remote_addr = NetworkAddress::from(remote_sock);
+        broadcast_event(&self.event_tx, P2PEvent::PeerConnected(peer_id.clone()));
+        register_new_peer(&self.peers, &peer_id, &remote_addr).await;
+        self.active_connections.write().await.insert(peer_id);
+    }
+
+    /// Feed one received frame, authenticated as coming from `sender`, into
+    /// the production receive loop. Returns false if the loop is not running.
+    pub async fn verif_inject_frame(&self, sender: [u8; 32], bytes: Vec<u8>) -> bool {
+        let tx = self
+            .verif
+            .as_ref()
+            .and_then(|v| v.inject_tx.lock().as_ref().cloned());
+        match tx {
+            Some(tx) => tx
+                .send((ant_quic::nat_traversal_api::PeerId(sender), bytes))
+                .await
+                .is_ok(),
+            None => false,
+        }
+    }
+
+    /// Number of entries currently in the request/response pending table.
+    pub async fn verif_active_requests_len(&self) -> usize {
+        self.active_requests.read().await.len()
     }
 }
